@@ -163,7 +163,7 @@ func c19Parity(c *Ctx) {
 						} else {
 							for x := 0; x < w; x++ {
 								if line[x] == 1 {
-									want = d.M.Xor(want, data.At(x*fs+k).V.(*absint.Bits).Bits()[bit])
+									want = d.M.Xor(want, data.At(x*fs + k).V.(*absint.Bits).Bits()[bit])
 								}
 							}
 						}
